@@ -19,7 +19,7 @@ def run(tier, argv):
     # 1. the specification: implementation-shaped map (Go slice semantics) against the reference map, all histories
     r = vlib.tlc(work, "OMapProduct", "OMapProduct.cfg", timeout=900)
     rep.add_tlc(r, "OMapProduct 3 keys x 2 values (RefWellFormed, SameItems, SameLen, OrderMonotone)")
-    for sw in ("DeleteAbsentDropsLast", "FilterRangesWhileDeleting"):
+    for sw in ("DeleteAbsentDropsLast", "FilterRangesWhileDeleting", "FilterDeletesBeforePanic"):
         rv = vlib.tlc(work, "OMapProduct", "OMapProduct.cfg", consts={sw: "TRUE"}, allow_violation=True, timeout=900)
         if not rv.violation:
             raise vlib.Infra("vacuous product: switch %s no longer violates SameItems" % sw)
